@@ -22,7 +22,8 @@ Line-protocol driver of the step-counter model (C05).  Producer: harness/c05.py.
 Every answer carries the counters of all instances: `… || steps=1,0,3 running=1,1,0`.
 
 How `step` is bound on an instance (Model/StepBinding.lean); these objects live in a list of their own:
-  bnew c f|-               instantiate chain class c; `f`: its `__init__` assigns `self.step = fn_f` before `super().__init__()`
+  bnew c f|- [r]           instantiate chain class c; `f`: its `__init__` assigns `self.step = fn_f` before `super().__init__()`;
+                           `r`: the variant of the class whose step body at depth r raises RuntimeError after making its record
                            → ok obj=K || b=<steps of all objects>
   bstep k a1 a2 …          obj_k.step(a1, …) → ok|err Type|err Runtime log=<class bodies> fn=<f@steps/args,…> || b=…
                            (functions numbered 50 and up raise RuntimeError after making their record)
@@ -76,15 +77,16 @@ def fmtFn (c : FnCall) : String :=
 def stepLine (st : St) (ws : List String) : St × String :=
   let bad := (st, "bad-op")
   match ws with
-  | ["bnew", c, f] =>
-    match c.toNat?, (if f = "-" then some none else f.toNat?.map some) with
-    | some c, some pre =>
+  | "bnew" :: c :: f :: rz =>
+    match c.toNat?, (if f = "-" then some none else f.toNat?.map some),
+        (match rz with | [] => some none | [r] => r.toNat?.map some | _ => none) with
+    | some c, some pre, some rz =>
       match st.classes[c]? with
       | some h =>
-        let os := st.objs ++ [Obj.construct h 1000000 pre]
+        let os := st.objs ++ [Obj.construct h 1000000 pre rz]
         ({ st with objs := os }, s!"ok obj={st.objs.length} || {fmtObjs os}")
       | none => bad
-    | _, _ => bad
+    | _, _, _ => bad
   | "bstep" :: k :: args =>
     match k.toNat?, args.mapM (·.toInt?) with
     | some k, some args =>
@@ -93,7 +95,7 @@ def stepLine (st : St) (ws : List String) : St × String :=
         let r := o.call args
         let os := st.objs.set k r.obj
         ({ st with objs := os },
-         (if r.ok then "ok" else if r.fns.any (fun c => raisesFn c.f) then "err Runtime" else "err Type") ++
+         (if r.ok then "ok" else if r.fns.any (fun c => raisesFn c.f) || r.bodyRaised then "err Runtime" else "err Type") ++
            s!" log={",".intercalate (r.entries.map (fmtEntry []))} fn={",".intercalate (r.fns.map fmtFn)} || {fmtObjs os}")
       | none => bad
     | _, _ => bad
